@@ -48,6 +48,14 @@ CLAIMED = {
             "Trusted: pysym translator (validated per run), z3/cvc5 FP theories, element-wise numpy models listed per obligation; "
             "QuantizedTime only for a sweep of concrete durations.",
             "DESIGN.md §1 C10"),
+    "C19": ("CrossHair/z3 symbolic execution of the real HippoClientProtocol.datagram_received and Circuit methods from a "
+            "symbolic circuit pre-state (ids already seen, next id, retry budget) over <=3 symbolic arrivals / ack forms / "
+            "timer rounds, compared with a reference model of the dedupe window and the resend timer",
+            "Bounded symbolic model checking: all arrival sequences up to the stated depth with symbolic packet ids and flag "
+            "bits are covered path-exhaustively.",
+            "Trusted: CrossHair + z3; serializer replaced by a snapshot recorder (byte codec is C01), deserializer by a stub that "
+            "hands over the prepared Message, circuit clock by a harness clock.",
+            "DESIGN.md §1 C19"),
 }
 
 NOT_APPLICABLE = {
